@@ -179,6 +179,23 @@ static std::string run_case(const toks_t& t)
       *pp = v;
       return observe(off, seed);
     }
+    if (kind == "fnp") {
+      // a tainted FUNCTION pointer (entry k of the sandbox's function table, 0 = null) stored through *p: the cell must
+      // receive the function-pointer representation k.  The tainted value is obtained by loading representation k from a
+      // scratch cell at the start of memory.
+      using fn_t = void (*)();
+      uint64_t k = parse_u64(t.at(3));
+      auto scratch = ptr_at<fn_t>(64 * 1024 - 64 < COMMITTED ? 64 * 1024 - 64 : 1024);
+      auto* b = reinterpret_cast<uint8_t*>(g_base);
+      uint64_t so = reinterpret_cast<uintptr_t>(scratch.UNSAFE_unverified()) - g_base;
+      typename Cfg::rep_t rep = static_cast<typename Cfg::rep_t>(k);
+      std::memcpy(b + so, &rep, sizeof(rep));
+      tainted<fn_t> f = *scratch;
+      for (size_t i = 0; i < sizeof(rep); i++) b[so + i] = pat(so + i, seed);     // restore the pattern
+      auto pp = ptr_at<fn_t>(off);
+      *pp = f;
+      return observe(off, seed);
+    }
     bool ok = with_any_kind(kind, [&](auto tg) {
       using T = typename decltype(tg)::type;
       if constexpr (std::is_same_v<T, wchar_t>) { out = "NOCOMPILE"; }
@@ -242,5 +259,8 @@ int main(int argc, char** argv)
   Sbx::fixed_base_hint = uintptr_t(1) << 44;
   g_sb->create_sandbox(nullptr, false);
   g_base = g_sb->get_sandbox_impl()->region_base();
+  // three entries of the sandbox's function table (representations 1..3) for the function-pointer stores
+  static void (*const fns[3])() = { [] {}, [] {}, [] {} };
+  for (auto f : fns) g_sb->get_sandbox_impl()->function_table.push_back(reinterpret_cast<const void*>(f));
   return case_loop(argc, argv, run_case);
 }
